@@ -624,11 +624,18 @@ def _make_init(cls: t.Type[PaneBase], fields: t.Sequence[Field]):
     setattr(cls, 'from_dict_unchecked', from_dict_unchecked)
 
 
+def _generic_root(cls: type) -> type:
+    """The class ``cls`` was subscripted from, through any number of subscriptions (``Cls[int, U][str]`` -> ``Cls``)."""
+    while '__origin__' in cls.__dict__:
+        cls = cls.__dict__['__origin__']
+    return cls
+
+
 def _make_eq(cls: t.Type[PaneBase], fields: t.Sequence[Field]):
     #eq_fields = list(filter(lambda f: f.eq, fields))
     def __eq__(self: PaneBase, other: t.Any) -> bool:
         # check if classes are the same (modulo type variables)
-        if self.__class__.__dict__.get('__origin__', self.__class__) != other.__class__.__dict__.get('__origin__', other.__class__):
+        if _generic_root(self.__class__) != _generic_root(other.__class__):
             return False
         return all(
             getattr(self, field.name) == getattr(other, field.name)
@@ -642,7 +649,7 @@ def _make_ord(cls: t.Type[PaneBase], fields: t.Sequence[Field]):
     #ord_fields = list(filter(lambda f: f.ord, fields))
     def _pane_ord(self: PaneBase, other: t.Any) -> t.Literal[-1, 0, 1]:
         # same class, modulo type variables (as for `__eq__`: `Cls[int](1) == Cls[Any](1)`, so they must be ordered too)
-        if self.__class__.__dict__.get('__origin__', self.__class__) != other.__class__.__dict__.get('__origin__', other.__class__):
+        if _generic_root(self.__class__) != _generic_root(other.__class__):
             return NotImplemented  # type: ignore
         for f in fields:
             if not f.compare:
